@@ -453,3 +453,31 @@ def runProgram : ItState → List ItOp → Res (List ItOut)
 
 end Api
 end Rox
+
+namespace Rox
+namespace Api
+
+/-! ### Node identity, ordering, hashing (lib.rs:912-939) -/
+
+/-- A `Node` as a value: the address of the `Document` it borrows and its id. Addresses of
+simultaneously live documents are distinct; that is all the model assumes about them. -/
+structure NodeRef where
+  addr : Nat
+  id : Nat
+deriving Repr, DecidableEq
+
+/-- `PartialEq for Node`: `(self.id, self.doc as *const _) == (other.id, other.doc as *const _)` -/
+def NodeRef.eqB (a b : NodeRef) : Bool := a.id == b.id && a.addr == b.addr
+
+/-- `Ord for Node` (after the D2 repair): `(doc ptr, id.0)` lexicographically; `id.0` is the
+`NonZeroU32` holding `id + 1`. -/
+def NodeRef.cmp (a b : NodeRef) : Ordering :=
+  (compare a.addr b.addr).then (compare (a.id + 1) (b.id + 1))
+
+/-- What `Hash for Node` feeds to the hasher: `id.0`, the document pointer, the `NodeData`
+pointer (`nodeAddr addr id` = address of `nodes[id]` of the document at `addr`). -/
+def NodeRef.hashInput (nodeAddr : Nat → Nat → Nat) (a : NodeRef) : List Nat :=
+  [a.id + 1, a.addr, nodeAddr a.addr a.id]
+
+end Api
+end Rox
